@@ -58,7 +58,9 @@ SFinal(E) ==
 \* the linearization point of task u's outstanding call
 SLin(u) ==
   /\ u \in DOMAIN pend /\ ~pend[u].lin
-  /\ \E r \in {Outcome(pend[u].c, pend[u].op)} :
+  \* a proof whose signature was altered in transit ("forged") must be refused and change nothing
+  /\ \E r \in {IF pend[u].op.o = "forged" THEN [truth |-> truth, cores |-> cores, ret |-> [t |-> "refused"]]
+                ELSE Outcome(pend[u].c, pend[u].op)} :
        /\ truth' = r.truth /\ cores' = r.cores
        /\ pend' = [pend EXCEPT ![u].lin = TRUE,
                                ![u].ret = IF pend[u].op.o = "proof" /\ r.ret.t # "ok"
